@@ -272,12 +272,67 @@ def rule_positional(rep, crate):
                 rep.viol(rid, 'positional:%s' % name.split('::')[-1], 'a positional callback is accepted at a position other than 0 (or unconditionally)', loc(fn, t['line']))
 
 
+LOOP_CARRIED_OK = {
+    ('parser::subpattern::Subpatterns::subst_subpatterns', 'current_pos'): 'cursor into the text of ONE pattern (reset per call)',
+    ('*', '_i'): 'repetition counter generated by quote!',
+}
+
+
+def rule_loop_state(rep, crate):
+    """Order independence of items also fails when a loop over items carries a user variable from one iteration to the next."""
+    rid = rep.rule('M-C18e', 'no loop of the attribute parser (parser::*, generate) carries a user variable from one item to the next: a named local that is initialised before a loop, assigned inside it and read inside it is reported unless it is in the audited list (state that leaks from an earlier item into a later one makes the result depend on their order)', floor=10)
+    from mirlib import natural_loops
+    n = 0
+    for name, fn in sorted(crate.fns.items()):
+        if not re.match(r'^(parser::|generate$)', name):
+            continue
+        loops = natural_loops(fn)
+        n += 1
+        rep.inst(rid, 'loops:%s' % name, detail=len(loops), trivial=not loops)
+        for head, body in loops:
+            body = set(body)
+            asg = set()
+            for bi, si, st in fn.stmts():
+                if bi in body and not st['lhs']['proj'] and st['lhs']['local'] in fn.names:
+                    asg.add(st['lhs']['local'])
+            for l in sorted(asg):
+                if not [d for d in fn.defs().get(l, []) if d[1] not in body and d[1] in fn.live_blocks()]:
+                    continue
+                read = False
+                for bi in body:
+                    blk = fn.blocks[bi]
+                    ops = []
+                    for st in blk['stmts']:
+                        rhs = st['rhs']
+                        ops += [rhs.get('a'), rhs.get('b')] + list(rhs.get('ops') or [])
+                        if 'place' in rhs and rhs['place']['local'] == l:
+                            read = True
+                    t = blk['term']
+                    if t['t'] == 'switch':
+                        ops.append(t['discr'])
+                    if t['t'] == 'call':
+                        ops += list(t['args'])
+                    for o in ops:
+                        if o and o.get('op') in ('copy', 'move') and o['place']['local'] == l:
+                            read = True
+                if not read:
+                    continue
+                var = fn.names[l]
+                if (name, var) in LOOP_CARRIED_OK or ('*', var) in LOOP_CARRIED_OK:
+                    continue
+                rep.viol(rid, 'loop-carried:%s:%s' % (name, var), 'in %s the variable `%s` is set while one item is processed and read while a later one is processed: the outcome can depend on the order of the items' % (name, var), loc(fn, fn.blocks[head]['term'].get('line')))
+
+
 def run(ctx, rep):
     crate = ctx.mir('ws-default')['logos_codegen']
     rule_separator(rep, crate)
     rule_commute(rep, crate)
     rule_positional(rep, crate)
     rule_item_loops(rep, crate)
+    rule_loop_state(rep, crate)
+    # a tie between two items (e.g. two skips) is an error, never resolved by the order in which they were written
+    from props import c08
+    c08.rule_state_type(rep, crate)
     from props import cg
     cg.cg_controls(rep, ctx, [('M-C18a', rule_separator)])
     rep.trusted += ['rustc nightly MIR', 'engines/mirfacts']
